@@ -89,4 +89,59 @@ Section Service.
   Proof.
     unfold but_queues. intros H. repeat (apply pair_equal_spec in H; destruct H as [H ?]). splits; assumption.
   Qed.
+
+  (* ---- acquire_pid_for ---- *)
+  Definition but_aq (s : state) :=
+    (s_st s, s_pwc s, s_tmo s, s_uq s, s_rq s, s_hq s, s_cur s, s_enc s, s_q2in s, s_ppub s, s_pnon s, s_pwco s,
+     s_settings s, s_next_id s, s_connected_before s, s_dec s, s_next_ping s, s_ping_to s, s_connack_to s, s_ores s,
+     s_ires s, s_ss_count s).
+
+  (* what binding a packet id may change in an operation *)
+  Definition aq_rel (o o' : op) : Prop :=
+    op_pubrel o' = op_pubrel o /\ op_user o' = op_user o /\ op_timeout o' = op_timeout o /\ op_ss o' = op_ss o /\
+    is_connect (op_packet o') = is_connect (op_packet o) /\ is_disconnect (op_packet o') = is_disconnect (op_packet o) /\
+    needs_pid (op_packet o') = needs_pid (op_packet o) /\
+    (needs_pid (op_packet o) = false -> o' = o).
+
+  Lemma aq_rel_refl o : aq_rel o o.
+  Proof. unfold aq_rel. splits; reflexivity. Qed.
+
+  Lemma acquire_pid_for_spec X (s : state) id o :
+    WFSx X s -> s_cur s = Some id -> getop s id = Some o ->
+    match acquire_pid_for s id with
+    | Panic _ => False
+    | Err _ => True
+    | Ok s' =>
+        WFSx X s' /\ but_aq s' = but_aq s /\
+        (exists o', getop s' id = Some o' /\ aq_rel o o' /\ (needs_pid (op_packet o') = true -> op_pid o' <> None)) /\
+        (forall i, i <> id -> getop s' i = getop s i) /\ sumss (s_ops s') = sumss (s_ops s)
+    end.
+  Proof.
+    intros HW Hc Hid. unfold acquire_pid_for. unfold getop in Hid. rewrite Hid.
+    destruct (op_pid o) as [p|] eqn:Hp.
+    { splits; auto. exists o. splits; auto using aq_rel_refl. congruence. }
+    destruct (needs_pid (op_packet o)) eqn:Hn; cbn [negb].
+    2:{ splits; auto. exists o. splits; auto using aq_rel_refl. congruence. }
+    destruct (acquire_free_pid s id) as [[s1 pid]|k|site] eqn:Eaq; cbn [obind]; [| exact I | exact (acquire_never_panics _ _ _ Eaq)].
+    assert (Hpok : pids_ok s) by exact (w_pids _ _ HW).
+    destruct (acquire_ok _ _ _ _ Hpok Eaq) as (Hr & Hfree & _ & _ & Hpok1).
+    unfold acquire_free_pid in Eaq.
+    destruct (match first_gap (map fst (s_alloc s)) (s_next_pid s) 65535 with
+              | Some c => Some c | None => first_gap (map fst (s_alloc s)) 1 (s_next_pid s - 1) end) as [c|]; [|discriminate].
+    inversion Eaq; subst s1 pid; clear Eaq.
+    destruct (with_pid_needs c _ Hn) as (p' & Hwp). rewrite Hwp. cbn [obind].
+    destruct (with_pid_ok _ _ _ Hwp) as (P1 & P2 & P3 & P4).
+    splits.
+    - eapply (WFc_acquire X (core_of s) _ id o c p'); [exact HW|exact Hid|exact Hp|exact Hn|exact Hfree|exact Hwp| |exact Hpok1|reflexivity].
+      core_cbn. tauto.
+    - reflexivity.
+    - eexists. split; [unfold getop; cbn; apply lookup_update_eq; exact Hid|]. cbn. split; [|discriminate].
+      unfold aq_rel. cbn. splits; try reflexivity.
+      + destruct (op_packet o); cbn in Hwp; inversion Hwp; reflexivity.
+      + destruct (op_packet o); cbn in Hwp; inversion Hwp; reflexivity.
+      + rewrite !needs_pid_split. congruence.
+      + congruence.
+    - intros i Hne. unfold getop. cbn. apply lookup_update_neq. exact Hne.
+    - cbn. apply sumss_update. intros o0. reflexivity.
+  Qed.
 End Service.
